@@ -16,6 +16,25 @@ pub struct ThreadResult {
     /// relative to the thread's base): with ties the shape is decided by the tie-break rule alone, which
     /// must not depend on what other threads are doing
     pub tie_shape: Vec<u32>,
+    /// Debug rendering of the final treap and of the tie treap (`{:?}` and `TreePrinter`), produced while the
+    /// other threads run; compared with the rendering of the same treaps made after all threads were joined
+    pub rendered: Vec<String>,
+    /// the thread's script panicked
+    pub panicked: Option<String>,
+}
+
+/// What is kept out of the outcome set: the treaps themselves, handed back for the quiet re-rendering.
+pub struct Kept {
+    pub trees: Vec<Treap<It>>,
+}
+
+pub fn render_all(trees: &[Treap<It>]) -> Vec<String> {
+    let mut out = vec![];
+    for t in trees {
+        out.push(format!("{:?}", t));
+        out.push(format!("{:?}", TreePrinter::new(t)));
+    }
+    out
 }
 
 #[derive(Clone, Debug, PartialEq, Eq, PartialOrd, Ord)]
@@ -28,6 +47,12 @@ pub struct Outcome {
 pub struct It {
     pub val: u32,
     pub size: usize,
+}
+
+impl std::fmt::Debug for It {
+    fn fmt(&self, f: &mut std::fmt::Formatter<'_>) -> std::fmt::Result {
+        write!(f, "<{}>", self.val)
+    }
 }
 
 impl TreapItem for It {
@@ -52,10 +77,10 @@ fn find_prio(node: &Option<Box<TreapNode<It>>>, val: u32) -> Option<u32> {
 
 /// What thread `t` does with `k >= 2` node creations on a treap only it owns.  With `serial` every
 /// operation runs under one harness-wide lock (the reference executions).
-pub fn script(t: u32, k: usize, serial: Option<Arc<Mutex<()>>>) -> ThreadResult {
+pub fn script(t: u32, k: usize, serial: Option<Arc<Mutex<()>>>) -> (ThreadResult, Kept) {
     macro_rules! op {
         ($e:expr) => {{
-            let _g = serial.as_ref().map(|m| m.lock().unwrap());
+            let _g = serial.as_ref().map(|m| m.lock().unwrap_or_else(|e| e.into_inner()));
             $e
         }};
     }
@@ -101,7 +126,21 @@ pub fn script(t: u32, k: usize, serial: Option<Arc<Mutex<()>>>) -> ThreadResult 
         }
     }
     pre(&back.root, &mut tie_shape);
-    ThreadResult { prios, seq, size, removed, first, last, tie_shape }
+    // printing is an operation on a thread-owned treap like any other
+    let trees = vec![tr, back];
+    let rendered = op!(render_all(&trees));
+    (ThreadResult { prios, seq, size, removed, first, last, tie_shape, rendered, panicked: None }, Kept { trees })
+}
+
+/// `script`, with a panic of the code under test turned into a result
+pub fn script_caught(t: u32, k: usize, serial: Option<Arc<Mutex<()>>>) -> (ThreadResult, Kept) {
+    match std::panic::catch_unwind(std::panic::AssertUnwindSafe(|| script(t, k, serial))) {
+        Ok(r) => r,
+        Err(p) => {
+            let msg = p.downcast_ref::<String>().cloned().or_else(|| p.downcast_ref::<&str>().map(|s| s.to_string())).unwrap_or_else(|| "panic".into());
+            (ThreadResult { prios: vec![], seq: vec![], size: 0, removed: 0, first: 0, last: 0, tie_shape: vec![], rendered: vec![], panicked: Some(msg) }, Kept { trees: vec![] })
+        }
+    }
 }
 
 /// The same script on a plain vector.
@@ -116,19 +155,36 @@ pub fn expected(t: u32, k: usize) -> (Vec<u32>, u32) {
     (w, removed)
 }
 
-/// `cold`: the main thread creates no node before spawning, so the threads' first node creations are the
-/// first of the whole process (lazily initialised shared state is still uninitialised).
+/// `cold`: no node is created before the threads are spawned, so their first node creations are the first
+/// of the whole process (lazily initialised shared state is still uninitialised).  Otherwise a helper
+/// thread creates one node and is joined first.  The thread that runs this function never creates a node
+/// itself: under loom it is the model's root thread, whose thread-local destructors run only after loom has
+/// torn down its statics.
 pub fn run_once(threads: u32, k: usize, serial: bool, cold: bool) -> Outcome {
     let lock = if serial { Some(Arc::new(Mutex::new(()))) } else { None };
-    let main = if cold { 0 } else { TreapNode::new(It { val: 0, size: 1 }).priority };
+    let main = if cold {
+        0
+    } else {
+        thread::spawn(|| std::panic::catch_unwind(|| TreapNode::new(It { val: 0, size: 1 }).priority).unwrap_or(u32::MAX)).join().unwrap()
+    };
     let hs: Vec<_> = (1..=threads)
         .map(|t| {
             let l = lock.clone();
-            thread::spawn(move || script(t, k, l))
+            thread::spawn(move || script_caught(t, k, l))
         })
         .collect();
-    let threads = hs.into_iter().map(|h| h.join().unwrap()).collect();
-    Outcome { main, threads }
+    let mut results: Vec<(ThreadResult, Kept)> = hs.into_iter().map(|h| h.join().unwrap()).collect();
+    // everything is quiet now: render the same treaps again
+    for (r, kept) in results.iter_mut() {
+        if r.panicked.is_none() {
+            let quiet = render_all(&kept.trees);
+            if quiet != r.rendered {
+                r.rendered.push("DIFFERS-FROM-QUIET-RENDERING".to_string());
+                r.rendered.extend(quiet);
+            }
+        }
+    }
+    Outcome { main, threads: results.into_iter().map(|x| x.0).collect() }
 }
 
 pub fn outcome_json(o: &Outcome) -> String {
@@ -137,8 +193,8 @@ pub fn outcome_json(o: &Outcome) -> String {
         .iter()
         .map(|t| {
             format!(
-                "{{\"prios\":{:?},\"seq\":{:?},\"size\":{},\"removed\":{},\"first\":{},\"last\":{},\"tie_shape\":{:?}}}",
-                t.prios, t.seq, t.size, t.removed, t.first, t.last, t.tie_shape
+                "{{\"prios\":{:?},\"seq\":{:?},\"size\":{},\"removed\":{},\"first\":{},\"last\":{},\"tie_shape\":{:?},\"panicked\":{:?}}}",
+                t.prios, t.seq, t.size, t.removed, t.first, t.last, t.tie_shape, t.panicked.as_deref().unwrap_or("")
             )
         })
         .collect();
@@ -147,7 +203,16 @@ pub fn outcome_json(o: &Outcome) -> String {
 
 /// Results that do not depend on priorities must equal the script run on a vector.
 pub fn check_results(o: &Outcome, k: usize, solo_tie_shape: &[u32]) -> Result<(), String> {
+    if o.main == u32::MAX {
+        return Err("the helper thread's single node creation panicked".to_string());
+    }
     for (i, t) in o.threads.iter().enumerate() {
+        if let Some(m) = &t.panicked {
+            return Err(format!("thread {} panicked inside its treap operations ({}); the same operations alone do not", i + 1, m));
+        }
+        if let Some(pos) = t.rendered.iter().position(|x| x == "DIFFERS-FROM-QUIET-RENDERING") {
+            return Err(format!("thread {} printed its treaps ({{:?}} and TreePrinter) as {:?} while the other threads were running; printed again after all threads were joined the same treaps give {:?}", i + 1, &t.rendered[..pos], &t.rendered[pos + 1..]));
+        }
         if t.tie_shape != solo_tie_shape {
             return Err(format!("thread {} merged three equal-priority nodes into the shape {:?} (pre-order, 0 = end of left subtree); the same operations alone give {:?}", i + 1, t.tie_shape, solo_tie_shape));
         }
